@@ -45,7 +45,19 @@ def deep_copy_json(ip, v):
 
 def json_encode(ip, args, kwargs, node):
     payload = jsonify(ip, args[-1])
-    s = VStr(ip.st.fresh("json_text", z3.StringSort()))
+    text = None
+    if isinstance(payload, VDict):
+        items = ip.st.heap[(payload.ref, "items")]
+        if items and all(isinstance(v, VStr) for v in items.values()):
+            # {"k":"v",...} with separators (",", ":"); string values are assumed to need no escaping
+            # (true for ids accepted by VALID_ID, which is what this form is used for)
+            parts = [z3.StringVal("{")]
+            for i, (k, v) in enumerate(items.items()):
+                parts += [z3.StringVal(("," if i else "") + '"' + str(k) + '":"'), v.term, z3.StringVal('"')]
+            parts.append(z3.StringVal("}"))
+            text = z3.Concat(*parts)
+            ip.st.assumed_used.add("JSON text of a flat dict of strings that need no escaping is {\"k\":\"v\"}")
+    s = VStr(text if text is not None else ip.st.fresh("json_text", z3.StringSort()))
     s.json = payload
     ip.st.assumed_used.add("JSON: json.loads(JSONEncoder.encode(x)) == jsonify(x) (text treated abstractly)")
     return s
@@ -117,6 +129,16 @@ def td_total_seconds_ieee(ip, td):
     return VReal((z3.ToReal(td.term) / 10 ** 6) * (1 + d))
 
 
+def uuid4(ip, args, kwargs, node):
+    """uuid4(): an object whose .hex is a fresh 32-character lowercase hex string (so it matches VALID_ID)"""
+    h = ip.st.fresh("uuid_hex", z3.StringSort())
+    hexre = z3.Loop(z3.Union(z3.Range("0", "9"), z3.Range("a", "f")), 32, 32)
+    ip.st.assume(z3.InRe(h, hexre))
+    ip.st.uses_strings = True
+    ip.st.assumed_used.add("uuid4().hex is a 32-character lowercase hexadecimal string, fresh on every call")
+    return ip.new_obj("UUID", {"hex": VStr(h)})
+
+
 def install(lib):
     lib["JSON_ENCODER"] = VModule("JSON_ENCODER", {"encode": VBuiltin("JSONEncoder.encode", json_encode)})
     lib["json"] = VModule("json", {"loads": VBuiltin("json.loads", json_loads),
@@ -125,6 +147,8 @@ def install(lib):
     lib["is_dataclass"] = VBuiltin("is_dataclass", b_is_dataclass)
     lib["__methods__"][("dt", "isoformat")] = VBuiltin("datetime.isoformat", dt_isoformat)
     lib["datetime"].attrs["fromisoformat"] = VBuiltin("datetime.fromisoformat", dt_fromisoformat)
+    lib["uuid"] = VModule("uuid", {"uuid4": VBuiltin("uuid.uuid4", uuid4)})
+    lib["uuid4"] = lib["uuid"].attrs["uuid4"]
     lib["is_installed"] = VBuiltin("is_installed", lambda ip, a, k, n: VBool(False))   # pydantic models are outside the subset
     for n in ("date", "time"):
         lib.setdefault(n, VClass("py_" + n))
